@@ -186,6 +186,12 @@ func (c *FuncCtx) eval0(st *State, e ast.Expr) Value {
 			}
 			return arr
 		}
+		if sl, ok := typ.Underlying().(*types.Slice); ok && len(n.Elts) == 0 {
+			// the empty slice literal: fresh zero-length storage
+			if _, isInt := intKindOf(sl.Elem()); isInt {
+				return c.freshSlice(st, sl.Elem(), ConstI(0), ConstI(0))
+			}
+		}
 		panic(verr("unsupported composite literal %s at %s", exprString(n), c.prog.pos(n)))
 	case *ast.StarExpr:
 		v := c.eval(st, n.X)
